@@ -757,6 +757,11 @@ thread_local! {
 
 impl Drop for Cluster {
     fn drop(&mut self) {
+        if std::env::var("NV_TRACE").is_ok() {
+            for l in self.trace.iter() {
+                eprintln!("  {}", l);
+            }
+        }
         self.cancel_tasks(None);
         PENDING_CLIENTS.with(|p| p.borrow_mut().clear());
         PENDING_LINK_CLIENTS.with(|p| p.borrow_mut().clear());
